@@ -186,32 +186,113 @@ def r_branch(ctx: Ctx, model, tr):
 
 
 def r_numinv(ctx: Ctx, model, tr):
-    ctx.rule("M-numinv: numerical inverse protocol (residual = forward(x) - target; success checked -> CalculationError; "
-             "returns res.x; stateless starting point)")
+    """numerical inverses, interpreted with the root finder summarised (its objective is evaluated on a symbolic unknown; its
+    success flag is explored both ways) - wherever the call sits (method body, shared helper of the base class, ...)"""
+    from ..absint import Obj, Raised
+    from ..domain import make_interp
+    from ..libsum import Vec, install_vec
+    ctx.rule("M-numinv: the objective handed to the root finder is forward(x) - target with the model's own explicit equation; an "
+             "unsuccessful solve raises CalculationError; a successful one returns the solver's x; the starting point does not depend on "
+             "earlier calls")
     for name, meth in NUMINV.items():
         ci = model.cls(f"{MOD}.{name.lower()}.{name}")
-        fi = ci.methods.get(meth)
+        fi = ci.find_method(meth)
         if fi is None:
             raise AnalysisError(f"anchor missing: {name}.{meth}")
-        op = OptProtocol(fi)
-        if op.call is not None:
-            op.check_success_raises("CalculationError")
-            op.check_returns_x()
-            op.check_x0_stateless()
-            fn, ret = op.residual()
-            if ret is not None:
-                forward = "pressure" if meth == "loading" else "loading"
-                target = fi.params()[1]
-                arg = fn.args.args[0].arg if fn.args.args else "?"
-                src = ast.unparse(ret).replace(" ", "")
-                want = f"self.{forward}({arg})-{target}"
-                ok = src == want or (op.solver.startswith("minimize") and src in (f"({want})**2", f"abs({want})", f"numpy.abs({want})"))
-                if not ok:
-                    op.problems.append(("residual-shape", f"objective returns `{ast.unparse(ret)}`, expected `{want}`"
-                                        f"{' (squared)' if op.solver.startswith('minimize') else ''}"))
-        for code, msg in op.problems:
-            ctx.ob(False, Finding("C10.M-numinv", fi.where, f"{name}.{meth}|{code}", f"{name}.{meth}: {msg}"))
-        ctx.ob(True, nontrivial_key=("numinv", name))
+        forward = "pressure" if meth == "loading" else "loading"
+        I = make_interp(model)
+        install_vec(I)
+        I.sympy_mode = True
+        for nm_, fn_ in (("log", sp.log), ("exp", sp.exp), ("sqrt", sp.sqrt)):
+            I.ext[f"numpy.{nm_}"] = (lambda fn_: lambda I, a, k, n: fn_(a[0]))(fn_)
+        I.ext["numpy.zeros_like"] = lambda I, a, k, n: sp.Integer(0)
+        I.ext["numpy.asarray"] = lambda I, a, k, n: a[0]
+        I.ext["numpy.isnan"] = lambda I, a, k, n: False
+        I.ext["numpy.atleast_1d"] = lambda I, a, k, n: a[0] if isinstance(a[0], Vec) else Vec([a[0]])
+        I.ext["numpy.empty_like"] = lambda I, a, k, n: Vec([sp.Integer(0)] * len(a[0].items)) if isinstance(a[0], Vec) else sp.Integer(0)
+        I.ext["numpy.zeros_like"] = lambda I, a, k, n: sp.Integer(0)
+        I.libmeth[("Vec", "ravel")] = lambda I, v, a, k, n: v
+        I.libmeth[("Vec", "flatten")] = lambda I, v, a, k, n: v
+        I.libmeth[("Sym", "__getitem__")] = lambda I, v, a, k, n: v
+        cap = {}
+        X, TGT = sp.Symbol("x_unknown", positive=True), sp.Symbol("target", positive=True)
+
+        def solver(which):
+            def f(I, a, k, n):
+                fun = a[0] if a else k.get("fun")
+                cap["solver"] = which
+                cap["x0"] = a[1] if len(a) > 1 else k.get("x0")
+                cap.setdefault("x0s", []).append(cap["x0"])
+                cap["residual"] = I.call_value(fun, [X], {}, n)
+                ok = I.choose(2, "solver.success") == 0
+                return Obj(kind="OptRes", label="res", attrs={"x": sp.Symbol("res_x", positive=True), "success": ok, "message": "m",
+                                                              "fun": sp.Symbol("res_fun", real=True), "status": sp.Integer(1 if ok else 0)})
+            return f
+        for which in ("root", "minimize", "minimize_scalar", "least_squares", "brentq", "fsolve"):
+            I.ext[f"scipy.optimize.{which}"] = solver(which)
+        pn = I.class_const(ci, ci.find_assign("param_names")[1]) if ci.find_assign("param_names") else ()
+        pn = (pn,) if isinstance(pn, str) else tuple(pn)
+        params = {k_: sp.Symbol(f"par_{k_}", positive=True) for k_ in pn}
+        mk_self = lambda: Obj(cls=ci, label="model", attrs={"params": dict(params), "name": name})
+        outs = I.explore(lambda I: (cap.clear(), I.call_func(fi, [TGT], {}, None, self_obj=mk_self()), dict(cap))[1:])
+        saw = {"ok": 0, "fail": 0}
+        for oc in outs:
+            dec = dict(oc.decisions)
+            if "solver.success" not in dec:
+                ctx.ob(False, Finding("C10.M-numinv", fi.where, f"{name}.{meth}|no-solver-call",
+                                      f"{name}.{meth} returns / raises ({oc!r}) without calling a scipy.optimize solver"))
+                continue
+            if dec["solver.success"] == 1:
+                saw["fail"] += 1
+                ok = oc.kind == "raise" and oc.exc.is_a("CalculationError") and not oc.exc.fault
+                ctx.ob(ok, Finding("C10.M-numinv", fi.where, f"{name}.{meth}|failure-not-raised",
+                                   f"{name}.{meth}: an unsuccessful solve ends in {oc!r}; CalculationError required"),
+                       nontrivial_key=("numinv", name, "fail"))
+                continue
+            saw["ok"] += 1
+            if oc.kind != "ok":
+                ctx.ob(False, Finding("C10.M-numinv", fi.where, f"{name}.{meth}|raises-after-success", f"{name}.{meth}: {oc!r} although the solver succeeded"))
+                continue
+            val, cp = oc.value
+            ctx.ob(val == sp.Symbol("res_x", positive=True), Finding("C10.M-numinv", fi.where, f"{name}.{meth}|returns-x",
+                                                                    f"{name}.{meth} returns {val!r}; required the solver's x"),
+                   nontrivial_key=("numinv", name, "x"))
+            # the objective: forward(x) - target, forward being the model's explicit equation
+            I2 = I
+            fwd = I2.explore(lambda I: I.call_func(ci.find_method(forward), [X], {}, None, self_obj=mk_self()))
+            if len(fwd) != 1 or fwd[0].kind != "ok":
+                raise AnalysisError(f"{name}.{forward} cannot be evaluated symbolically: {fwd[:1]}")
+            want = fwd[0].value - TGT
+            res = cp.get("residual")
+            squared = cp.get("solver", "").startswith("minimize")
+            cands = [want] if not squared else [want**2, sp.Abs(want)]
+            okr = isinstance(res, sp.Basic) and any(decide_zero(res - c_)[0] == "zero" for c_ in cands)
+            ctx.ob(okr, Finding("C10.M-numinv", fi.where, f"{name}.{meth}|residual-shape",
+                                f"{name}.{meth}: the solver's objective is {res}; required {forward}(x) - target" + (" (squared / absolute)" if squared else "")),
+                   nontrivial_key=("numinv", name, "residual"))
+            x0 = cp.get("x0")
+            okx = not (isinstance(x0, sp.Basic) and any(str(s_).startswith("par_") for s_ in x0.free_symbols)) and not isinstance(x0, Obj)
+            ctx.ob(okx, Finding("C10.M-numinv", fi.where, f"{name}.{meth}|x0", f"{name}.{meth}: starting point {x0!r} depends on model state"),
+                   nontrivial_key=("numinv", name, "x0"))
+        # arrays: every element is solved for on its own - no starting point may contain an earlier element's solution
+        arr = Vec([sp.Symbol("target0", positive=True), sp.Symbol("target1", positive=True)])
+        I.libmeth[("Sym", "__getitem__")] = lambda I, v, a, k, n: v
+        try:
+            outs2 = I.explore(lambda I: (cap.clear(), I.call_func(fi, [arr], {}, None, self_obj=mk_self()), dict(cap))[1:])
+        except AnalysisError:
+            outs2 = []          # array handling outside the interpreted fragment: the scalar obligations above stand
+        for oc in outs2:
+            if oc.kind != "ok":
+                continue
+            x0s = oc.value[1].get("x0s", [])
+            dep = [x0 for x0 in x0s if isinstance(x0, sp.Basic) and any(str(s_) == "res_x" for s_ in x0.free_symbols)]
+            ctx.ob(not dep, Finding("C10.M-numinv", fi.where, f"{name}.{meth}|array-elements-coupled",
+                                    f"{name}.{meth} on an array starts the solve of one element from the solution of another ({dep[:1]}): the answer for "
+                                    "a value then depends on the values before it (spurious roots for unordered input)"),
+                   nontrivial_key=("numinv", name, "array"))
+        ctx.ob(saw["ok"] >= 1 and saw["fail"] >= 1, Finding("C10.M-numinv", fi.where, f"{name}.{meth}|success-untested",
+                                                            f"{name}.{meth}: the solver's success flag does not decide between returning and raising "
+                                                            f"(paths: {saw})"), nontrivial_key=("numinv", name, "both"))
 
 
 def r_zero_henry_mono(ctx: Ctx, model, tr, lists):
